@@ -33,10 +33,18 @@ Inductive err := EParse | EPartial (depth : nat).
 (* parser state: stack with the TOP FIRST, completed top-level objects in reverse order *)
 Record pstate := { stack : list item; code : list tree }.
 
+(* reader.push: the reader macros waiting on top of the stack (' ` , ,@ #') are applied to the completed object,
+   innermost first; then it goes onto the stack (inside a list) or to the code *)
+Fixpoint wrap_marks (st : list item) (t : tree) : list item * tree :=
+  match st with
+  | IMark w :: rest => wrap_marks rest (TWrap w t)
+  | _ => (st, t)
+  end.
 Definition push_val (p : pstate) (t : tree) : pstate :=
-  match stack p with
-  | [] => {| stack := []; code := t :: code p |}
-  | st => {| stack := IVal t :: st; code := code p |}
+  let '(st, t') := wrap_marks (stack p) t in
+  match st with
+  | [] => {| stack := []; code := t' :: code p |}
+  | _ => {| stack := IVal t' :: st; code := code p |}
   end.
 
 (* pop the values above the nearest open marker *)
@@ -64,35 +72,15 @@ Definition close_list (p : pstate) : pstate + err :=
   match pop_to_open (stack p) [] with
   | None => inr EParse                                  (* unmatched close parenthesis *)
   | Some (k, items, below) =>
-      match k with
-      | KList =>
-          let obj := dotted items in
-          (* a quote-like marker directly below the list wraps it *)
-          let '(obj, below) := match below with IMark w :: below' => (TWrap w obj, below') | _ => (obj, below) end in
-          inl (match below with
-               | [] => {| stack := []; code := obj :: code p |}
-               | _ => {| stack := IVal obj :: below; code := code p |}
-               end)
-      | _ =>
-          let obj := TNode k items in
-          inl (match below with
-               | [] => {| stack := []; code := obj :: code p |}
-               | _ => {| stack := IVal obj :: below; code := code p |}
-               end)
-      end
+      let obj := match k with KList => dotted items | _ => TNode k items end in
+      inl (push_val {| stack := below; code := code p |} obj)
   end.
 
 Definition lower (b : byte) : byte := if (65 <=? b)%N && (b <=? 90)%N then (b + 32)%N else b.
 Definition is_t (tok : list byte) : bool := match tok with [116%N] | [84%N] => true | _ => false end.
 Definition is_nil_tok (tok : list byte) : bool := match map lower tok with [110; 105; 108]%N => true | _ => false end.
 Definition push_token (p : pstate) (tok : list byte) : pstate :=
-  if is_t tok then push_val p (TLeaf LTrue)
-  else if is_nil_tok tok then push_val p (TLeaf LNil)
-  else match stack p with
-       | IMark w :: [] => {| stack := []; code := TWrap w (TLeaf (LTok tok)) :: code p |}
-       | IMark w :: rest => {| stack := IVal (TWrap w (TLeaf (LTok tok))) :: rest; code := code p |}
-       | _ => push_val p (TLeaf (LTok tok))
-       end.
+  push_val p (TLeaf (if is_t tok then LTrue else if is_nil_tok tok then LNil else LTok tok)).
 
 (* ---- actions: the bytes found in the mode tables ---- *)
 Inductive action :=
